@@ -42,7 +42,16 @@ def make_src(codes, shape, s, n, f, mode):
         return x
     x = mk(codes, s, n, f)
     if is2d(shape):
-        x = Fxp(np.array(codes, dtype=np.int64).reshape(2, -1), s, n, f, raw=True)
+        arr = np.array(codes, dtype=np.int64).reshape(2, -1)
+        # the same logical 2-D content in three memory layouts (content-determined): row-major, column-major input, transposed object
+        lay = hist_of(n, f, len(codes), codes[0] % 97, codes[-1] % 89) % 3
+        if lay == 0:
+            x = Fxp(arr, s, n, f, raw=True)
+        elif lay == 1:
+            x = Fxp(np.asfortranarray(arr), s, n, f, raw=True)
+        else:
+            x = Fxp(np.ascontiguousarray(arr.T), s, n, f, raw=True).T
+        assert x.shape == arr.shape and codes_of(x) == codes, 'layout changed the logical content'
     elif shape != '()' and len(codes) == 1:
         x = Fxp(np.array(codes, dtype=np.int64), s, n, f, raw=True)
     return x
@@ -173,6 +182,22 @@ def generate(tier, rng):
             continue
         yield 'CV %s %s %s %s %s %s %s %s' % (rng.choice(ROUTES), rng.choice(['raw', 'value']), shape_tok(sh, k), fm(x), fm(d),
                                               rng.choice(ROUNDS), rng.choice(OVFS), L(codes))
+    # 2-D sources (every memory layout, see make_src) whose rescaled codes need python integers (bit length + shift >= 63): the
+    # wide path rebuilds the array element by element and must keep every element at its place
+    for _ in range(400 if tier == 'quick' else 8000):
+        sx = rng.random() < 0.5
+        nx = rng.randint(8, 30)
+        fx = rng.randint(0, 6)
+        lo, hi = lims(sx, nx)
+        k = rng.choice([4, 6])
+        codes = [max(lo, min(hi, rng.choice([lo, hi, rng.randint(lo, hi), rng.randint(lo, hi), 1, 0]))) for _ in range(k)]
+        codes[rng.randrange(k)] = rng.choice([hi, lo]) if lo else hi
+        fd_ = fx + rng.randint(63 - nx, 70 - nx)
+        nd_ = min(52, fd_ + rng.randint(0, 6))
+        if fd_ > nd_ + 8 or abs(fd_ - fx) > 60:
+            continue
+        d = (rng.random() < 0.5, nd_, fd_)
+        yield 'CV %s raw %s %s %s %s %s %s' % (rng.choice(ROUTES), shape_tok(2, k), fm((sx, nx, fx)), fm(d), rng.choice(ROUNDS), rng.choice(OVFS), L(codes))
     for _ in range(1500 if tier == 'quick' else 30000):
         mode = rng.choice(['raw', 'value', 'value'])
         if mode == 'value':
